@@ -205,6 +205,22 @@ func (e *Env) buildStressPlan(id, loops int) *c12proc {
 	p := &c12proc{id: 100000 + id, stress: true}
 	p.conc = &plan.Conc{GoMaxProcs: []int{16, 4, 8, 2}[id%4], Loops: loops}
 	G := []int{16, 8, 12}[id%3]
+	if id%8 == 5 {
+		// seed stress: every goroutine derives the same few seeds, and encodes, again and again
+		p.conc.Loops = loops / 20
+		if p.conc.Loops < 12 {
+			p.conc.Loops = 12
+		}
+		for w := 0; w < G; w++ {
+			ops := []plan.Op{seeds[w%3], pool[10+w%4], seeds[(w+1)%3], pool[(w*7)%len(pool)], seeds[(w+2)%3], pool[14+w%5]}
+			for i := range ops {
+				ops[i].I = i
+			}
+			p.conc.Workers = append(p.conc.Workers, ops)
+		}
+		p.langs = []int{l1, l2}
+		return p
+	}
 	for w := 0; w < G; w++ {
 		var ops []plan.Op
 		n := 6 + r.Intn(6)
